@@ -109,6 +109,22 @@ def compare(case, got, model_line):
     return mism, branches
 
 
+def value_level(case, mism):
+    """mismatches where the implementation's choice has other (f, v) values than the model's"""
+    out = []
+    seq = case["seq"]
+    for m in mism:
+        try:
+            a, b = seq[int(m["impl"])], seq[int(m["model"])]
+        except (ValueError, TypeError, IndexError):
+            out.append(m)
+            continue
+        same = all((x == y) or (x != x and y != y) for x, y in zip(a, b))
+        if not same:
+            out.append(m)
+    return out
+
+
 def shrink(case, pred):
     """Greedy shrink of the (f, v) sequence keeping `pred(case)` true."""
     seq = list(case["seq"])
@@ -196,6 +212,7 @@ def run(chk, rng, replay=None):
     gots = [run_impl(c["seq"], c["tol"], c["size"], c["pens"], c["mode"]) for c in cases]
     models = driver([req_filter(c["seq"], c["tol"], c["size"], c["pens"]) for c in cases])
     branch_hist, n_mismatch, first_mismatch = {}, 0, None
+    value_mismatch = None
     nontrivial = set()
     for c, g, m in zip(cases, gots, models):
         mism, branches = compare(c, g, m)
@@ -207,6 +224,8 @@ def run(chk, rng, replay=None):
             n_mismatch += 1
             if first_mismatch is None:
                 first_mismatch = (c, mism)
+            if value_mismatch is None and c["size"] > 0 and value_level(c, mism):
+                value_mismatch = (c, mism)
     # spec on implementation output (unbounded filter)
     spec_cases = [(c, g) for c, g in zip(cases, gots) if c["size"] == 0]
     n_spec, n_irregular, spec_fail = 0, 0, None
@@ -262,6 +281,28 @@ def run(chk, rng, replay=None):
         chk.violation({"property": "C03", "kind": "spec-fails-on-implementation", "case": case_json(c), "failure": what,
                        "explain": "feeding this (objective, violation) history to a real cobyqa Problem, best_eval(penalty) after the given prefix returns the evaluation index 'impl', which breaks the named clause of C03",
                        "signature": {"clause": what["clause"]}})
+    # whole runs: the filter of the skeleton (filter_size / history_size from the options) must explain res.x
+    import runlevel
+
+    def tweak(d, r):
+        o = d["options"]
+        if r.random() < 0.5:
+            o["store_history"] = True
+            o["history_size"] = int(r.integers(1, 8))
+        if r.random() < 0.3:
+            o["filter_size"] = int(r.integers(1, 6))
+        return d
+    if replay is None:
+        runlevel.run_check(chk, rng, None, "C03", MODULES, "general", 120, 2000, {"C03", "C02"}, merge=True, proof=(ok, info), tweak=tweak)
+    if chk.violations:
+        return
+    if spec_fail is None and value_mismatch is not None:
+        c, mism = value_mismatch
+        c = shrink(c, lambda cc: bool(value_level(cc, check_case(cc)[0])))
+        chk.violation({"property": "C03", "kind": "spec-fails-on-implementation", "case": case_json(c),
+                       "failure": {"clause": "bounded-filter", "mismatch": value_level(c, check_case(c)[0])[:2]},
+                       "explain": "with a finite filter_size the documented rule (admit non-dominated points, discard the entries the newcomer dominates, then evict the oldest) selects a point with other (objective, violation) values than the implementation",
+                       "signature": {"clause": "bounded-filter"}})
     elif not ok or first_mismatch is not None:
         rep = {"property": "C03", "kind": "proof-or-correspondence-broken"}
         if not ok:
